@@ -3,7 +3,7 @@ CONSTANTS
  MaxUpdates = 50
  MaxReinit = 5  BSChoices = {} FixBlockSize = TRUE  FixLostWorker = TRUE
  CountCalls = TRUE
- NW <- TrNW  NW0 <- TrNW0  NWChoices = {}  BS <- TrBS  Total <- TrTotal  Chunk = 16384  Timeout <- TrTimeout  Spurious = TRUE  MayFail = TRUE
+ NW <- TrNW  NW0 <- TrNW0  NWChoices = {}  BS <- TrBS  Total <- TrTotal  Chunk = 16384  Timeout <- TrTimeout  Spurious = TRUE  MayFail = TRUE MayFailMain = TRUE
  Gives = {}  Spaces = {}  FlushActs = {}  HdrSz = 12  TailSz = 0
 CONSTRAINT TrackMax
 POSTCONDITION TraceAccepted
